@@ -108,7 +108,7 @@ Definition cached_aggregator (st : pstate) (i : inst) (r : sreq) : pstate * opti
         | Some ak =>
             let j := length (ps_decls st) in
             ({| ps_cache := ps_cache st ++ [(id, Some j)];
-                ps_decls := ps_decls st ++ [{| ad_name := r_name r; ad_kind := ak; ad_ikind := i_kind i;
+                ps_decls := ps_decls st ++ [{| ad_name := qualified i (r_name r); ad_kind := ak; ad_ikind := i_kind i;
                                                ad_filter := r_filter r |}] |},
              Some j, false)
         end
